@@ -94,11 +94,14 @@ CLAIMED["C04"] = dict(
           "nested and merged tables, prefixes and separators bare - with no hypothesis); C04_accept_raw_eq_clean and C04_paragraph_read_accepted (the raw "
           "string read by the CriticMarkup reader with everything accepted == accepted view); "
           "C04_meta_blocks_are_rendered_groups + C04_listed_marks_are_those_open_at_text (metadata blocks are built from "
-          "exactly one snapshot of the open changes / comment ranges per text-carrying run); C04_document_read_accepted_partial "
+          "exactly one snapshot of the open changes / comment ranges per text-carrying run), C04_block_lists_open_changes_once / "
+          "C04_block_lists_anchored_comments (inside one block: one [Chg:id] line per open change, none twice; a [Com:id] line for "
+          "every open comment the comment map knows); C04_document_read_accepted_partial "
           "/ C04_document_flat_balanced_partial (whole documents: stories, nested and merged tables, by mutual induction) "
           "under the decidable domain domDoc (brace-free texts, no container that is empty only in the accepted view) with "
           "C04_deleted_only_container_counterexample showing the hypothesis is needed (= open finding "
-          "F-deleted-only-container, replayed on the implementation); C04_layout_is_indexed_layout, C04_marker_no_newline. "
+          "F-deleted-only-container, replayed on the implementation); C04_vmerge_duplicate_counterexample and "
+          "C04_point_comment_counterexample (the other two open findings as theorems about the model); C04_layout_is_indexed_layout, C04_marker_no_newline. "
           "Tie: model == extract_text_from_stream on every generated document, both views; the driver evaluates domDoc and "
           "the reading conclusion on every compared document (hit counts in the evidence). Independent oracle: "
           "completeness/order, per-character annotation, listed ids (threads included), accept(raw)==clean, flat balanced "
@@ -134,7 +137,9 @@ CLAIMED["C06"] = dict(
     text=("Lean theorems about accept/reject on paragraph children: C06_accept_effect, C06_reject_effect, C06_isolation, "
           "C06_commute (all four combinations, distinct ids), C06_unknown_skipped, C06_resolved_once, C06_counts, "
           "C06_accept_each_eq_acceptAll — all documents, all sequences; and on the whole main story (tables included): "
-          "C06_commute_doc, C06_unknown_skipped_doc, C06_skeleton_untouched_doc. " + ENGINE_TIE + "Oracle: per-character "
+          "C06_commute_doc, C06_unknown_skipped_doc, C06_skeleton_untouched_doc; C06_accept_all_raw_view_is_accepted_view and "
+          "C06_resolved_paragraph_reads_the_same (reader model: what accept-all leaves of a paragraph, and any paragraph whose "
+          "changes were all resolved, has no wrapper and no metadata - raw view == accepted view). " + ENGINE_TIE + "Oracle: per-character "
           "reference semantics on the independent reader's view, counts, accept-each == accept-all == accepted view; "
           "random and exhaustive short action sequences incl. unknown / malformed / quoted ids."),
     note=NOTE_COMMON + "changes inside headers/footers cannot be addressed (only the main part is searched).",
